@@ -179,7 +179,7 @@ bool Alarm::activeTimer() {
   int timezone_offset_seconds = using_independ_timezone_ ? \
                                 timezone_offset_seconds_ : GetSystemTimezoneOffsetSeconds();
 
-  auto next_utc_start_sec = std::max(curr_utc_sec, target_utc_sec_);
+  auto next_utc_start_sec = std::max(std::max(curr_utc_sec, target_utc_sec_), last_fired_utc_sec_);
 
   //! Q: 为什么要用curr_utc_sec与target_utc_sec_中最大值来算下一轮的时间点？
   //! A: 因为在实践中存在steady_clock比system_clock快的现象，会导致重复触发定时任务的问题。
@@ -220,6 +220,7 @@ void Alarm::onTimeExpired() {
   LogTrace("time expired, target_utc_sec:%u", target_utc_sec_);
 #endif
 
+  last_fired_utc_sec_ = target_utc_sec_;
   state_ = State::kInited;
   activeTimer();
 
